@@ -45,6 +45,7 @@ type HarnessSpec struct {
 	Assumes  []string
 	InstrCap int64
 	WallS    int
+	LoopCut  bool
 }
 
 type KnownFinding struct {
@@ -103,7 +104,7 @@ func parseHarnessFiles(dir string) ([]HarnessSpec, map[string]string, error) {
 					if len(fs) < 3 {
 						return nil, nil, fmt.Errorf("%s: bad harness directive %q", f, line)
 					}
-					hs = &HarnessSpec{Func: fd.Name.Name, Prop: fs[1], Name: fs[2], Tier: "quick", Unwind: 64, MaxPaths: 20000, Timeout: 10000, File: f, Native: true, InstrCap: 50_000_000, WallS: 600}
+					hs = &HarnessSpec{Func: fd.Name.Name, Prop: fs[1], Name: fs[2], Tier: "quick", Unwind: 64, MaxPaths: 20000, Timeout: 2500, File: f, Native: true, InstrCap: 50_000_000, WallS: 600}
 					for _, kv := range fs[3:] {
 						p := strings.SplitN(kv, "=", 2)
 						if len(p) != 2 {
@@ -123,6 +124,8 @@ func parseHarnessFiles(dir string) ([]HarnessSpec, map[string]string, error) {
 							hs.InstrCap = int64(n)
 						case "wall":
 							hs.WallS = n
+						case "loopcut":
+							hs.LoopCut = p[1] == "1"
 						case "native":
 							hs.Native = p[1] != "0" && p[1] != "false"
 						}
@@ -295,6 +298,7 @@ func explore(m *interp.Machine, fn *ssa.Function, stubs map[string]*ssa.Function
 				ctx := interp.NewCtx(solver, item)
 				ctx.Unwind = hs.Unwind
 				ctx.InstrCap = hs.InstrCap
+				ctx.LoopCut = hs.LoopCut
 				solver.BeginPath()
 				res := m.RunPath(ctx, fn, stubs)
 				solver.EndPath()
@@ -322,7 +326,7 @@ func explore(m *interp.Machine, fn *ssa.Function, stubs map[string]*ssa.Function
 					}
 				}
 				switch res.Status {
-				case "ok", "violation", "pruned":
+				case "ok", "violation", "pruned", "loopcut":
 				default:
 					if len(hr.Inconclusive) < 20 {
 						hr.Inconclusive = append(hr.Inconclusive, res.Status+": "+res.Detail)
@@ -550,6 +554,13 @@ func run() int {
 	var pend []*pendingCheck
 	nviolFiles := 0
 
+	type prepared struct {
+		hs    HarnessSpec
+		fn    *ssa.Function
+		stubs map[string]*ssa.Function
+		hr    *harnessResult
+	}
+	var preps []*prepared
 	for _, hs := range sel {
 		fn := ld.pkg.Func(hs.Func)
 		if fn == nil {
@@ -574,7 +585,25 @@ func run() int {
 		if *flagConcrete != "" {
 			return runConcrete(m, fn, stubs, hs)
 		}
-		hr := explore(m, fn, stubs, hs, workers, thorough)
+		preps = append(preps, &prepared{hs: hs, fn: fn, stubs: stubs})
+	}
+	{
+		// harnesses are explored concurrently; each has its own worker pool
+		var wg sync.WaitGroup
+		sem := make(chan struct{}, 4)
+		for _, p := range preps {
+			wg.Add(1)
+			go func(p *prepared) {
+				defer wg.Done()
+				sem <- struct{}{}
+				defer func() { <-sem }()
+				p.hr = explore(m, p.fn, p.stubs, p.hs, workers, thorough)
+			}(p)
+		}
+		wg.Wait()
+	}
+	for _, p := range preps {
+		hs, fn, stubs, hr := p.hs, p.fn, p.stubs, p.hr
 		results = append(results, hr)
 		if *flagV {
 			fmt.Fprintf(os.Stderr, "%s: paths=%d status=%v queries=%d wall=%.1fs\n", hs.Func, hr.Paths, hr.ByStatus, hr.Stats.Queries, hr.WallS)
